@@ -50,7 +50,7 @@ def guard_live_at(body, lock_site, access):
     return True
 
 
-@ob("C08.2", ["C08", "C24"], "with a drop/re-lock between lookup and insert two threads interning equal values both miss and both insert: two handles for one value", kind="ORDER")
+@ob("C08.2", ["C08", "C24", "C16"], "with a drop/re-lock between lookup and insert two threads interning equal values both miss and both insert: two handles for one value", kind="ORDER")
 def c08_2(cx):
     """intern_id acquires the shard lock exactly once, before key_map.find; the guard is live at every key-map / LRU mutation and at the calls of intern_id_cold and find_reusable_slot; intern_id_cold / insert_value / find_reusable_slot take no lock themselves (they receive &mut IngredientShard)."""
     b = cx.fn(IN + r"intern_id$")
@@ -108,7 +108,7 @@ def c08_3(cx):
     cx.flow(sh, sh.origin_local(0), [r"^\(\(\$2 Shl const:7\) Shr \$1\.shift\)$"], [], "shard(hash) depends only on the hash and the fixed shift")
 
 
-@ob("C08.4", ["C08", "C07"], "reading another slot's fields returns values that were not interned under this handle", kind="FLOW")
+@ob("C08.4", ["C08", "C07", "C01"], "reading another slot's fields returns values that were not interned under this handle", kind="FLOW")
 def c08_4(cx):
     """data(zalsa, id) returns from_internal_data(&*table.get::<Value<C>>(id).fields.get()); fields(s) = data(as_id(s))."""
     d = cx.fn(IN + r"data$")
@@ -134,7 +134,7 @@ UNLOCKED_OK = {
 }
 
 
-@ob("C08.1", ["C08", "C09", "C23"], "an unsynchronised access to a value's metadata/durability/fields/memos races with slot reuse under the shard lock", kind="LOCKED")
+@ob("C08.1", ["C08", "C09", "C23", "C16"], "an unsynchronised access to a value's metadata/durability/fields/memos races with slot reuse under the shard lock", kind="LOCKED")
 def c08_1(cx):
     """Every UnsafeCell::get on Value.{lru.metadata, durability, fields, memos} is (a) dominated by a live shard-lock guard in the same body, (b) in a body that receives &mut IngredientShard / &mut self, (c) in an `unsafe fn` (contract: caller holds the lock), (d) in a closure created under (a)-(c), or (e) a listed documented exception."""
     n = 0
@@ -270,7 +270,7 @@ def c09_2(cx):
     cx.sites(rem, 3, "LRU unlink sites in intern_id")
 
 
-@ob("C09.3", ["C09", "C07", "C08"], "reclaiming a value that is not stale (interned in one of the last REVISIONS active revisions, or before the queue is primed) changes a live value's identity", kind="ONLYIF")
+@ob("C09.3", ["C09", "C07", "C08", "C01"], "reclaiming a value that is not stale (interned in one of the last REVISIONS active revisions, or before the queue is primed) changes a live value's identity", kind="ONLYIF")
 def c09_3(cx):
     """The reuse path (fields replace / metadata overwrite) is reached only if revision_queue.is_primed() and find_reusable_slot returned Some; find_reusable_slot::inner returns Some only if is_stale(metadata.last_interned_at) and next_generation() is Some; is_stale(r) is true only if oldest != start and r < oldest; is_primed only if oldest > start; the scan starts at lru.back_mut()."""
     b = cx.fn(IN + r"intern_id$")
@@ -341,7 +341,7 @@ def c01_1i(cx):
     cx.flow(h, cx.arg(rev, 1), [r"^\$3$"], [], "the revision-only report forwards current_revision", rev)
 
 
-@ob("C07.2", ["C07", "C09", "C23"], "a recycled interned slot that keeps the memos (or the id) of the previous value serves results computed for the old data to the new handle", kind="MUSTCALL+FLOW (slot recycling protocol)")
+@ob("C07.2", ["C07", "C09", "C23", "C01"], "a recycled interned slot that keeps the memos (or the id) of the previous value serves results computed for the old data to the new handle", kind="MUSTCALL+FLOW (slot recycling protocol)")
 def c07_2(cx):
     """intern_id reuse path: the new fields are assembled with slot.new_id; the stale entry is removed from the key map under the OLD fields' hash (computed before the fields are replaced) and re-inserted under the new key's hash; metadata.id := slot.new_id, durability := the interning query's; clear_memos(zalsa, &mut value.memos, slot.old_id) is reached on every path after the fields were replaced; the id returned is slot.new_id. clear_memos::inner takes every memo out of the table, raising DidDiscard and removing its outputs under (memo ingredient, id), and drops the table through a guard."""
     b = cx.fn(IN + r"intern_id$")
